@@ -23,6 +23,7 @@ inductive Err where
   | negative     -- negative count / size
   | malformed    -- other malformed input (too many continuation bytes, …)
   | utf8
+  | oob          -- (offset, length) outside the addressed buffer
   | panic        -- the Rust code panics here (assert!/index/slice); a C08 violation
   deriving DecidableEq, Repr
 
@@ -145,9 +146,12 @@ def readElems {α} (elem : List Nat → Except Err (α × List Nat)) : Nat → L
       | .error e => .error e
       | .ok (xs, rest') => .ok (x :: xs, rest')
 
-/-- `read_thrift_vec`, first half: the list header is read, the element type validated and
-`Vec::with_capacity(list_ident.size as usize)` is executed **before any element is read**.
-Returns the number of elements reserved (the byte size is this times `size_of::<T>()`). -/
+/-- `list_prealloc`: the capacity `read_thrift_vec` (and the hand-written row-group and
+offset-index list readers) reserve before any element is read -/
+def thriftVecReserve (size : Nat) : Nat := min size THRIFT_LIST_PREALLOC_MAX
+
+/-- `read_thrift_vec`, first half: the list header is read and the element type validated.
+Returns the declared number of elements; `thriftVecReserve` of it is reserved up front. -/
 def thriftVecCapacity (expected : Nat) (bs : List Nat) : Except Err (Nat × List Nat) :=
   match thriftReadListBegin bs with
   | .error e => .error e
@@ -311,15 +315,16 @@ def blockHeader (buf : List Nat) : Except Err (Nat × Nat × Nat × List Nat) :=
 
 /-! ## Parquet `BitReader::get_vlq_int` (`parquet/src/util/bit_util.rs`) -/
 
-/-- the `for (i, &byte) in buf.iter().enumerate()` loop: `assert!(shift <= MAX_VLQ_BYTE_LEN * 7)`
-**panics** on the eleventh byte of an unterminated varint; a ten-byte varint is accepted
-whatever its last byte (high bits are shifted out).  `ok none` = buffer exhausted. -/
+/-- the `for (i, &byte) in buf.iter().enumerate()` loop: on the eleventh byte of an unterminated
+varint (`shift >= MAX_VLQ_BYTE_LEN * 7`) the function returns `None`; a ten-byte varint is
+accepted whatever its last byte (high bits are shifted out).  `ok none` = buffer exhausted or
+varint too long. -/
 def bitReaderVlqGo (i shift v : Nat) : List Nat → Except Err (Option (Nat × Nat))
   | [] => .ok none
   | b :: bs =>
     let v := v ||| wshl64 (b % 128) shift
     let shift := shift + BITREADER_VLQ_STEP
-    if shift > MAX_VLQ_BYTE_LEN * 7 then .error .panic
+    if shift > MAX_VLQ_BYTE_LEN * 7 then .ok none
     else if b < 128 then .ok (some (v, i + 1))
     else bitReaderVlqGo (i + 1) shift v bs
 
@@ -366,13 +371,13 @@ def deltaHeader (buf : List Nat) : Except Err (Nat × Nat × Nat × Int) :=
 /-- `i64 as usize` -/
 def asUsize (x : Int) : Nat := (x % (two64 : Nat)).toNat
 
-/-- `read_buffer`: `a_data.slice_with_length(buf.offset() as usize, buf.length() as usize)`;
-`Buffer::slice_with_length` asserts `offset.saturating_add(length) <= self.length` — so an
-out-of-range pair **panics** instead of returning an error. -/
+/-- `read_buffer`: the `(offset, length)` pair is checked against the body (non-negative,
+`offset + length <= body.len()` without wrap-around) and an out-of-range pair is an `IpcError`;
+only then `a_data.slice_with_length(offset as usize, length as usize)` is taken. -/
 def ipcSlice (bodyLen : Nat) (offset length : Int) : Except Err (Nat × Nat) :=
   let o := asUsize offset
   let l := asUsize length
-  if min (o + l) (two64 - 1) ≤ bodyLen then .ok (o, l) else .error .panic
+  if min (o + l) (two64 - 1) ≤ bodyLen then .ok (o, l) else .error .oob
 
 /-! ## Parquet `OffsetBuffer` (`parquet/src/arrow/buffer/offset_buffer.rs`) -/
 
